@@ -37,6 +37,7 @@ import (
 	"google.golang.org/protobuf/reflect/protoregistry"
 	"google.golang.org/protobuf/types/descriptorpb"
 	"google.golang.org/protobuf/types/dynamicpb"
+	"google.golang.org/protobuf/types/known/anypb"
 )
 
 var schemaRoutes = []string{"generated", "global-desc", "fresh-file", "dynamic-options", "no-types-resolver", "no-parent"}
@@ -596,7 +597,95 @@ func init() {
 		}
 		return fmt.Sprintf("status=%d req-ext=%v resp-ext=%v", rec.Code, reqExt, respExt)
 	}
+	// schema_rev <n>: a revised copy of the library schema (same file path as the generated code that is
+	// linked in, one more message `Extra`, one more field `Book.extra` of type Any) loaded as descriptors:
+	// a JSON client in front of a proto backend whose answer carries an `Extra` inside the Any.  The
+	// client's JSON must show it: what counts is the loaded schema, not what else is linked in.
+	executors["schema_rev"] = func(a []string) string {
+		defer func() { _ = recover() }()
+		file, err := revisedLibrary()
+		if err != nil {
+			return "setup-error " + err.Error()
+		}
+		svc := file.Services().ByName("LibraryService")
+		book, extra := file.Messages().ByName("Book"), file.Messages().ByName("Extra")
+		backend := http.HandlerFunc(func(w http.ResponseWriter, r *http.Request) {
+			_, _ = io.ReadAll(r.Body)
+			x := dynamicpb.NewMessage(extra)
+			x.Set(extra.Fields().ByName("note"), protoreflect.ValueOfString("note"+a[0]))
+			xb, _ := proto.Marshal(x)
+			b := dynamicpb.NewMessage(book)
+			b.Set(book.Fields().ByName("title"), protoreflect.ValueOfString("t"+a[0]))
+			anyMsg := b.Mutable(book.Fields().ByName("extra")).Message()
+			anyMsg.Set(anyMsg.Descriptor().Fields().ByName("type_url"), protoreflect.ValueOfString("type.googleapis.com/vanguard.test.v1.Extra"))
+			anyMsg.Set(anyMsg.Descriptor().Fields().ByName("value"), protoreflect.ValueOfBytes(xb))
+			out, _ := proto.Marshal(b)
+			w.Header().Set("Content-Type", "application/proto")
+			_, _ = w.Write(out)
+		})
+		t, err := vanguard.NewTranscoder([]*vanguard.Service{vanguard.NewServiceWithSchema(svc, backend,
+			vanguard.WithTargetProtocols(vanguard.ProtocolConnect), vanguard.WithTargetCodecs("proto"), vanguard.WithNoTargetCompression())})
+		if err != nil {
+			return "config-rejected " + err.Error()
+		}
+		req := httptest.NewRequest("POST", "http://example.test/vanguard.test.v1.LibraryService/GetBook", strings.NewReader(`{"name":"shelves/1/books/`+a[0]+`"}`))
+		req.Header.Set("Content-Type", "application/json")
+		req.Header.Set("Connect-Protocol-Version", "1")
+		rec := httptest.NewRecorder()
+		t.ServeHTTP(rec, req)
+		var got struct {
+			Title string `json:"title"`
+			Extra struct {
+				Type string `json:"@type"`
+				Note string `json:"note"`
+			} `json:"extra"`
+		}
+		_ = json.Unmarshal(rec.Body.Bytes(), &got)
+		return fmt.Sprintf("status=%d title=%v any=%v", rec.Code, got.Title == "t"+a[0],
+			got.Extra.Note == "note"+a[0] && strings.HasSuffix(got.Extra.Type, "/vanguard.test.v1.Extra"))
+	}
 	streams["schema"] = streamSchema
+}
+
+var revisedLibraryOnce protoreflect.FileDescriptor
+
+// revisedLibrary: the linked-in library schema plus `message Extra { string note = 1; }` and
+// `google.protobuf.Any extra = 90;` in Book, under the same file path.
+func revisedLibrary() (protoreflect.FileDescriptor, error) {
+	if revisedLibraryOnce != nil {
+		return revisedLibraryOnce, nil
+	}
+	d, err := protoregistry.GlobalFiles.FindDescriptorByName(protoreflect.FullName(veriftest.LibraryServiceName))
+	if err != nil {
+		return nil, err
+	}
+	fdp := protodesc.ToFileDescriptorProto(d.ParentFile())
+	str := func(s string) *string { return &s }
+	i32 := func(i int32) *int32 { return &i }
+	opt := descriptorpb.FieldDescriptorProto_LABEL_OPTIONAL
+	tstr, tmsg := descriptorpb.FieldDescriptorProto_TYPE_STRING, descriptorpb.FieldDescriptorProto_TYPE_MESSAGE
+	hasAny := false
+	for _, dep := range fdp.Dependency {
+		hasAny = hasAny || dep == "google/protobuf/any.proto"
+	}
+	if !hasAny {
+		fdp.Dependency = append(fdp.Dependency, "google/protobuf/any.proto")
+	}
+	fdp.MessageType = append(fdp.MessageType, &descriptorpb.DescriptorProto{Name: str("Extra"),
+		Field: []*descriptorpb.FieldDescriptorProto{{Name: str("note"), Number: i32(1), Label: &opt, Type: &tstr, JsonName: str("note")}}})
+	for _, m := range fdp.MessageType {
+		if m.GetName() == "Book" {
+			m.Field = append(m.Field, &descriptorpb.FieldDescriptorProto{Name: str("extra"), Number: i32(90), Label: &opt, Type: &tmsg,
+				TypeName: str(".google.protobuf.Any"), JsonName: str("extra")})
+		}
+	}
+	_ = anypb.File_google_protobuf_any_proto // make sure any.proto is linked in
+	f, err := protodesc.NewFile(fdp, protoregistry.GlobalFiles)
+	if err != nil {
+		return nil, err
+	}
+	revisedLibraryOnce = f
+	return f, nil
 }
 
 type extSchemaT struct {
@@ -730,6 +819,10 @@ func streamSchema(e *Emitter, rng *rand.Rand, tier string) {
 	for k := 0; k < 5; k++ {
 		e.Class("schema:proto2-extension")
 		e.Emit(fmt.Sprintf("schema_ext %d", k))
+	}
+	for k := 0; k < 3; k++ {
+		e.Class("schema:revised-copy-of-linked-in-file")
+		e.Emit(fmt.Sprintf("schema_rev %d", k))
 	}
 	// tables: the annotated schema alone, then with additional WithRules bindings
 	probePool := [][2]string{{"GET", "/v1/shelves/1/books/2"}, {"POST", "/v1/shelves/1/books"}, {"GET", "/v1/shelves/1/books"}, {"POST", "/v1/shelves"},
